@@ -129,7 +129,8 @@ def run_one(prog, rows, pol, agg):
     shape = lang.prog_shape(prog) + "|" + flags + "|" + ",".join(pol)
     case = {"prog": prog, "rows": rows, "policy": pol}
     if status == "held":
-        agg.held(shape, True, sample={"program": info["program"], "rows": rows, "policy": pol})
+        nontriv = info["verdict_changes"] > 0 or info["errors_handled"] > 0
+        agg.held(shape, nontriv, sample={"program": info["program"], "rows": rows, "policy": pol, "verdict_changes": info["verdict_changes"]} if nontriv else None)
     elif status == "undecided":
         agg.skipped(info)
     elif status == "known":
